@@ -19,7 +19,7 @@ META = {
                     "C02 contract on bin1d_vec installed underneath"],
     "deciding": ["post:spatial_magnitude_counts", "post:spatial_counts", "post:magnitude_counts", "identity:marginals", "reject:out-of-range", "history:rebind-region"],
 }
-META["added"] = "Added: events in holes / flagged-out cells as the outside event, quadtree grids from shuffled and coarse-first listings and the grid's north edge, region re-binding and in-place re-ordering histories on one catalog object, a competing region-bound magnitude grid next to an explicit mag_bins, magnitude grids built with numpy.arange / start+k*step / linspace (round-off edges) with events on the nominal decimal edges."
+META["added"] = "Added: events in holes / flagged-out cells as the outside event, quadtree grids from shuffled and coarse-first listings and the grid's north edge, region re-binding and in-place re-ordering histories on one catalog object, a competing region-bound magnitude grid next to an explicit mag_bins, magnitude grids built with numpy.arange / start+k*step / linspace (round-off edges) with events on the nominal decimal edges. outside events leaving the box in exactly one coordinate or on its north / east edge."
 MANIFEST = {
     "technique": "runtime post-conditions (conservation, immutability) on the real catalog gridding methods at every call + brute-force reference gridding on generated catalogs incl. hostile out-of-range mixes; marginal identities and filter-equivalence checked per case",
     "level_text": "Each generated catalog/region pair is gridded by the real methods; the count array is compared entry by entry with a brute-force reference, totals and both marginals are exact integer identities, occupancy equals [count>0], each magnitude bin equals the size of the equivalent magnitude-range filter, and catalogs containing events outside the region or below the first magnitude edge must be rejected (space-magnitude) or left uncounted (magnitude histogram). Every call of the four gridding methods is also checked for conservation and for not mutating the catalog.",
@@ -143,12 +143,20 @@ def ex_cartesian(ctx, lat_case, mag, n, hostile, seed):
     lon, lat, ij = place_events(rng, model.ex, model.ey, active, n, float(lat_case["dh"]))
     mags, mk = place_mags(rng, nominal, n)
     cell = model.ci[ij[:, 0], ij[:, 1]] if n else numpy.zeros(0, dtype=int)
-    outside_pt = (float(model.ex[-1] + 3.3 * float(lat_case["dh"])), float(model.ey[0] - 2.2 * float(lat_case["dh"])))
+    dh_ = float(lat_case["dh"])
+    xin, yin = float(model.ex[ij[0, 0]] + 0.5 * dh_) if n else float(model.ex[0] + 0.5 * dh_), float(model.ey[ij[0, 1]] + 0.5 * dh_) if n else float(model.ey[0] + 0.5 * dh_)
+    # outside the bounding box in BOTH coordinates, or in exactly ONE (straight north / east / south / west of an occupied cell), or exactly ON
+    # the (exclusive) north / east edge of the box
+    okind = ["both", "north", "east", "south", "west", "on-north-edge", "on-east-edge"][seed % 7]
+    outside_pt = {"both": (float(model.ex[-1] + 3.3 * dh_), float(model.ey[0] - 2.2 * dh_)),
+                  "north": (xin, float(model.ey[-1] + 0.5 * dh_)), "east": (float(model.ex[-1] + 0.5 * dh_), yin),
+                  "south": (xin, float(model.ey[0] - 0.5 * dh_)), "west": (float(model.ex[0] - 0.5 * dh_), yin),
+                  "on-north-edge": (xin, float(model.ey[-1])), "on-east-edge": (float(model.ex[-1]), yin)}[okind]
+    tags = dict(tags, outside_kind=okind)
     inactive = numpy.argwhere(model.ci < 0)
     if hostile == "space" and len(inactive) and seed % 2:
         # an event inside the bounding box but in a hole or in a cell the region's mask flags switch off
         i_, j_ = inactive[int(rng.integers(0, len(inactive)))]
-        dh_ = float(lat_case["dh"])
         outside_pt = (float(model.ex[i_] + 0.5 * dh_), float(model.ey[j_] + 0.5 * dh_))
         tags = dict(tags, outside_kind="hole-or-flagged-cell")
     out = run_case(ctx, rc, tags, reg, bins, explicit, lon, lat, mags, cell, mk, hostile, rng, outside_pt=outside_pt)
